@@ -79,7 +79,6 @@ import JdProofs.DiffEmpty
 import JdProofs.DiffEmptySet
 import JdProofs.MergePrecision
 import JdProofs.CliExitCodes
-import JdProofs.OptSites
 import JdProps.C01Precision
 import JdProps.C01Void
 import JdProps.C05V1
@@ -466,13 +465,7 @@ theorem precision_exit_one_though_equal {x y : UInt64}
 
 end
 
-/-! ### Option plumbing of the Go source = the model's (regenerated table, JdProofs/OptSites.lean)
-
-   Which option list each call inside v2/ and lib/ passes to `hashCode` / `Equals` / `diff` / `ident` / `dispatch` … is
-   regenerated from the Go source on every run (tools/optfacts, 187 sites) and proved equal to the table the model was
-   written against. A dropped or added option argument breaks this, whether or not a generated input reaches it. -/
-
-theorem option_plumbing_as_modelled : Gen.optSites = Jd.OptSites.expected :=
-  Jd.OptSites.option_plumbing_as_modelled
+/-! ### Option plumbing: the regenerated table of the calls inside the functions behind this property is proved equal to the
+    model's in JdProofs/CondSites/P_C05.lean (`option_plumbing_as_modelled_C05`), built and audited by this property's check. -/
 
 end Jd.Props.C05
